@@ -22,7 +22,9 @@ RULE = ('all DAG shapes (topologically ordered node lists, every slot unset / '
         'Buildables; plus every shape with a callable that records its '
         'invocation and then raises from its body (TypeError, a TypeError '
         'subclass, RuntimeError): no node is invoked twice in a failing '
-        'build either')
+        'build either, and the next build of the same objects reuses nothing '
+        'of the failed one; container kinds include named tuples, a class '
+        'derived from a named tuple and defaultdicts')
 ASSUMPTIONS = [
     'the reference builder memoises by object identity for Buildables, lists, '
     'dicts, non-empty tuples and the Tmp node, which is what the statement '
